@@ -11,7 +11,7 @@ Qed.
 (* ---- sheet-name misspellings ---- *)
 Theorem misspelling_iff (lower : str -> str) supported key keys k :
   In k (misspelling_candidates lower supported key keys) <->
-  In k keys /\ edit (rev (lower k)) (rev key) <= 2 /\ ~ In k supported /\ starts_with [UNDERSCORE] k = false.
+  In k keys /\ edit (rev (lower k)) (rev key) <= 2 /\ ~ In (lower k) supported /\ starts_with [UNDERSCORE] k = false.
 Proof.
   unfold misspelling_candidates, is_candidate. rewrite filter_In, !andb_true_iff, !negb_true_iff.
   rewrite levenshtein_is_edit_distance, Nat.leb_le.
@@ -19,7 +19,7 @@ Proof.
   - intros (Hk & (Hd & Hs) & Hu). repeat split; try assumption.
     intro Hin. apply mem_In in Hin. congruence.
   - intros (Hk & Hd & Hs & Hu). repeat split; try assumption.
-    destruct (mem k supported) eqn:E; [|reflexivity]. apply mem_In in E. contradiction.
+    destruct (mem (lower k) supported) eqn:E; [|reflexivity]. apply mem_In in E. contradiction.
 Qed.
 
 (* ---- language code in trailing parentheses ---- *)
